@@ -50,7 +50,11 @@ func VerifV1Pipeline() {
 	clean := err == nil || cerrors.Is(err, errVerifNone)
 	p.w.checkEnd(err == nil && stopErr == nil)
 	_ = clean
-	verifObserve("stopped-with-error", err != nil)
+	if stopAfter == K {
+		// (with an earlier stop, whether a later record is still read - and can
+		// still be rejected - depends on the schedule: not an observation)
+		verifObserve("stopped-with-error", err != nil)
+	}
 	if err == nil {
 		verifCover("clean")
 	} else {
